@@ -235,7 +235,7 @@ class C06(Check):
         def st(r):
             if r.exit == 0:
                 return "ok"
-            if "Did not compile" in r.err:
+            if driver.compile_rejected(r):
                 return "rejected"
             if r.cls in ("panic",) and "compiler/src" in r.err:
                 return "compiler-panic"
